@@ -480,7 +480,13 @@ public:
       kind = "new";
       a += ",\"what\":" + q(typeSummary(NE->getAllocatedType()));
       if (NE->getNumPlacementArgs() > 0) a += ",\"placement\":1";
-      if (NE->isArray()) a += ",\"array\":1";
+      if (NE->isArray()) {
+        a += ",\"array\":1";
+        // the element count is recorded beside (not among) the children: rules index the children as placement args + initialiser
+        if (auto AS = NE->getArraySize()) {
+          if (*AS) a += ",\"asize\":" + std::to_string(emit(F, *AS));
+        }
+      }
       for (unsigned i = 0; i < NE->getNumPlacementArgs(); ++i) addKid(NE->getPlacementArg(i));
       a += ",\"nplace\":" + std::to_string(NE->getNumPlacementArgs());
       if (NE->getInitializer()) addKid(NE->getInitializer());
